@@ -195,6 +195,76 @@ Proof.
 Qed.
 
 (* ------------------------------------------------------------------ *)
+(** * A cut re-recorded from the denial the rung synthesised (session 5) *)
+
+(* Cache.WriteMsg hands the request's bound to RecordNXDomainCut as the lease when an adopted
+   denial carries the validated-proof marks of the cut it was synthesised from.  The rung folded
+   that cut's deadline [d] into the tree first (denial_rung_bound), so whatever the records of the
+   synthesised message say and whenever the clock is read, the re-recorded cut ends with the
+   older one -- and, without a floor, inside every term it was recorded with. *)
+Lemma cut_rerecorded_inherits_l mx st sm proof m d lease now wall ex :
+  cut_record mx st sm proof (denial_rung_bound m d lease) now wall = Some ex ->
+  ex <= d /\ now < ex
+  /\ (forall c, denial_rung_bound m d lease = Some c -> ex <= c)
+  /\ ex - now <= mx /\ ex - now <= st * second /\ ex - now <= sm * second
+  /\ (forall r c, In r proof -> In c (prr_cands wall r) -> ex - now <= c).
+Proof.
+  intros H. destruct (cut_record_no_floor _ _ _ _ _ _ _ _ H) as (H1 & H2 & H3 & H4 & H5 & H6).
+  assert (Ho : ole (denial_rung_bound m d lease) d).
+  { unfold denial_rung_bound. apply ole_bound_l. apply ole_bound_r. cbn. lia. }
+  repeat split; try assumption.
+  destruct (denial_rung_bound m d lease) as [c|] eqn:E; cbn in Ho; [|tauto].
+  specialize (H6 c eq_refl). lia.
+Qed.
+
+(* the recorded expiry is monotone in the lease: a lease between the bound the whole tree was
+   left with and the older cut's deadline gives an expiry between the two extremes (what
+   check_case CCutRerec tests, the lease of a sub-request not being observable) *)
+Lemma lower_mono a b t : a <= b -> lower a t <= lower b t.
+Proof. intros H. unfold lower. destruct (Z.ltb_spec a t), (Z.ltb_spec b t); lia. Qed.
+Lemma cut_record_lease_mono mx st sm proof c1 c2 now wall e1 :
+  c1 <= c2 ->
+  cut_record mx st sm proof (Some c1) now wall = Some e1 ->
+  exists e2, cut_record mx st sm proof (Some c2) now wall = Some e2 /\ e1 <= e2.
+Proof.
+  unfold cut_record. intros Hc.
+  set (t1 := bound_min (flat_map (prr_cands wall) proof) (bound_min [st * second; sm * second] mx)).
+  cbn [bound_min fold_left]. intros H.
+  pose proof (lower_mono (c1 - now) (c2 - now) t1 ltac:(lia)) as Hm.
+  destruct (Z.leb_spec (lower (c1 - now) t1) 0); [discriminate|]. inversion H; subst e1.
+  destruct (Z.leb_spec (lower (c2 - now) t1) 0); [lia|].
+  eexists. split; [reflexivity|lia].
+Qed.
+Lemma cut_rerecord_sandwich mx st sm proof b c d now wall ex :
+  b <= c -> c <= d ->
+  cut_record mx st sm proof (Some c) now wall = Some ex ->
+  (exists hi, cut_record mx st sm proof (Some d) now wall = Some hi /\ ex <= hi)
+  /\ (forall lo, cut_record mx st sm proof (Some b) now wall = Some lo -> lo <= ex).
+Proof.
+  intros Hb Hd H. split.
+  - exact (cut_record_lease_mono _ _ _ _ _ _ _ _ _ Hd H).
+  - intros lo Hlo. destruct (cut_record_lease_mono _ _ _ _ _ _ _ _ _ Hb Hlo) as (e & He & Hle).
+    rewrite H in He. inversion He; subst. exact Hle.
+Qed.
+
+(* non-vacuity: a cut with 7.4 s left answers at 2 s with TTL 5 (SOA and NSEC re-stamped to 5,
+   RRSIG original TTL 3600 and an expiration far away); re-recorded 40 us later under the tree's
+   bound (the cut's deadline 7.4 s; an alias lease of 60 s does not matter): without the lease the
+   new cut would end at 2.00004 + 5 = 7.00004 s -- inside; when the shown TTL is not the
+   shortest term (deadline 7.00001 s, shown 5) the lease is what keeps it inside: 7.00001 s *)
+Example cut_rerecorded_example :
+  let now := 2 * second in
+  let now' := now + 40000 in
+  cut_serve (7400 * 1000000) now = Some 5
+  /\ cut_record (3 * 3600 * second) 5 3600 [PSoa 5 3600; PPlain 5; PSig 5 3600 (1000 * second)]
+        (denial_rung_bound None (7400 * 1000000) (Some (60 * second))) now' now' = Some (7 * second + 40000)
+  /\ cut_serve (7 * second + 10000) now = Some 5
+  /\ cut_record (3 * 3600 * second) 5 3600 [PSoa 5 3600; PPlain 5]
+        (denial_rung_bound None (7 * second + 10000) None) now' now' = Some (7 * second + 10000)
+  /\ cut_record (3 * 3600 * second) 5 3600 [PSoa 5 3600; PPlain 5] None now' now' = Some (7 * second + 40000).
+Proof. vm_compute. repeat split; reflexivity. Qed.
+
+(* ------------------------------------------------------------------ *)
 (** * The replies dns64 relays: A-basis (RFC 6147 5.1.6) and PTR (5.3.1) *)
 
 (* Every relayed record keeps the TTL the answer it was copied from showed: for
@@ -214,7 +284,6 @@ Lemma dns64_relayed_inherits_l recs consulted now :
           | PFresh t _ => x = t
           end)
   /\ length (dns64_relay_ttls recs now) = length recs
-  /\ dns64_basis_reply recs now = dns64_relay_ttls recs now
   /\ dns64_ptr_reply recs now = 600 :: dns64_relay_ttls recs now
   /\ (forall p d, In p consulted -> piece_fold p = Some d -> ole (dns64_bound None consulted) d)
   /\ (forall e, In (PHit e) consulted -> ole (dns64_bound None consulted) (entry_end e))
@@ -234,48 +303,91 @@ Proof.
     unfold entry_end. rewrite Ha. destruct (dns64_bound None consulted) as [v|]; cbn in Ho; [lia|tauto].
 Qed.
 
-(* Computed witness (finding dns64-abasis-gate): the A-basis reply is NOT inside
-   the lifetime of the cached AAAA answer that gated it.  AAAA NODATA admitted
-   at 0 for 5 s, the A NODATA (SOA 3600 s) admitted at 2 s; asked at 4 s: the
-   reply relays the SOA with TTL 3598 while the gate has 1 s left.  The tree's
-   bound (5 s) does carry the gate's end, the records relayed do not. *)
-Definition basis_gate : entry := mk_entry 1 0 (5 * second) None false.
-Definition basis_a : entry := mk_entry 2 (2 * second) (3600 * second) None false.
-Lemma dns64_basis_outlives_gate :
-  let now := 4 * second in
-  now < entry_end basis_gate /\ now < entry_end basis_a
-  /\ dns64_basis_reply [PHit basis_a] now = [3598]
-  /\ 3598 * second > remaining basis_gate now
-  /\ dns64_bound None [PHit basis_gate; PHit basis_a] = Some (entry_end basis_gate).
-Proof. vm_compute. repeat split; reflexivity. Qed.
+(* ties: capRelayedTTLs divides by what the source divides by, one second; its statements read
+   as modelled (bound = ResponseMetaFrom(w.ctx).CutUntil(), clamp of a bound already over,
+   "Ttl > secs => secs"); buildAResponseAsBasis calls it on the three relayed sections *)
+Lemma gen_dns64_relay_cap_unit : dns64_relay_cap_unit = second.
+Proof. reflexivity. Qed.
+Lemma gen_dns64_relay_cap_guards :
+  dns64_relay_cap_guards =
+    [ [99;117;116;32;58;61;32;109;105;100;100;108;101;119;97;114;101;46;82;101;115;112;111;110;115;101;77;101;116;97;70;114;111;109;40;119;46;99;116;120;41;46;67;117;116;85;110;116;105;108;40;41]%N;   (* "cut := middleware.ResponseMetaFrom(w.ctx).CutUntil()" *)
+      [105;102;32;108;101;102;116;32;60;32;48;32;123]%N;                                   (* "if left < 0 {" *)
+      [105;102;32;117;105;110;116;54;52;40;114;114;46;72;101;97;100;101;114;40;41;46;84;116;108;41;32;62;32;115;101;99;115;32;123]%N;   (* "if uint64(rr.Header().Ttl) > secs {" *)
+      [99;46;72;101;97;100;101;114;40;41;46;84;116;108;32;61;32;117;105;110;116;51;50;40;115;101;99;115;41]%N ]   (* "c.Header().Ttl = uint32(secs)" *)
+  /\ dns64_basis_cap_call =
+    [ [119;46;99;97;112;82;101;108;97;121;101;100;84;84;76;115;40;111;117;116;46;65;110;115;119;101;114;44;32;111;117;116;46;78;115;44;32;111;117;116;46;69;120;116;114;97;41]%N ].   (* "w.capRelayedTTLs(out.Answer, out.Ns, out.Extra)" *)
+Proof. split; reflexivity. Qed.
 
-(* the repaired A-basis reply (props/C04/fix2.patch): every relayed TTL is inside what is
-   left of EVERY consulted answer, the gate included, never above the TTL it replaces, and
-   unchanged when nothing reports a deadline *)
-Lemma dns64_basis_capped_inherits recs consulted now :
-  forall x, In x (dns64_basis_reply_capped recs consulted now) ->
-    (forall p d, In p consulted -> piece_fold p = Some d -> x * second <= Z.max 0 (d - now))
-    /\ (forall e, In (PHit e) consulted -> now < entry_end e -> x * second <= entry_end e - now)
-    /\ (exists p, In p recs /\ x <= piece_ttl p now
-                 /\ (dns64_bound None consulted = None -> x = piece_ttl p now)).
+(* the relay cap is the cap of synthesise (both divide by one second) *)
+Lemma dns64_relay_cap_eq b now ttl : dns64_relay_cap b now ttl = dns64_cap b now ttl.
+Proof. unfold dns64_relay_cap, dns64_cap. rewrite gen_dns64_relay_cap_unit, gen_dns64_cap_unit. reflexivity. Qed.
+
+(* The A-basis reply (buildAResponseAsBasis since 1a0e74f) is composed from the AAAA answer that
+   gated it and the answers of the A chase.  Every relayed TTL is inside what is left of EVERY
+   consulted answer, the gate included (cached: its end; fresh: its lease), never above the TTL
+   the answer it was copied from showed -- hence, for a cached one, inside that answer's lifetime
+   too --, not negative, and unchanged when nothing consulted reports a deadline. *)
+Lemma dns64_basis_inherits_min_l recs consulted now :
+  length (dns64_basis_reply recs consulted now) = length recs
+  /\ (forall i q, nth_error recs i = Some q ->
+        exists x, nth_error (dns64_basis_reply recs consulted now) i = Some x
+          /\ (forall p d, In p consulted -> piece_fold p = Some d -> x * second <= Z.max 0 (d - now))
+          /\ (forall e, In (PHit e) consulted -> now < entry_end e -> x * second <= entry_end e - now)
+          /\ x <= piece_ttl q now
+          /\ (0 <= piece_ttl q now -> 0 <= x)
+          /\ match q with
+             | PHit e => now < entry_end e -> x * second <= entry_end e - now
+             | PFresh t _ => x <= t
+             end
+          /\ (dns64_bound None consulted = None -> x = piece_ttl q now)).
 Proof.
-  intros x Hx. unfold dns64_basis_reply_capped in Hx. apply in_map_iff in Hx.
-  destruct Hx as (q & <- & Hq).
+  split; [apply map_length|].
+  intros i q Hq. unfold dns64_basis_reply. rewrite nth_error_map, Hq. cbn.
+  eexists. split; [reflexivity|]. rewrite dns64_relay_cap_eq.
   assert (H1 : forall p d, In p consulted -> piece_fold p = Some d ->
                dns64_cap (dns64_bound None consulted) now (piece_ttl q now) * second <= Z.max 0 (d - now)).
   { intros p d Hin Hf. pose proof (dns64_bound_le None consulted p d Hin Hf) as Ho.
     destruct (dns64_bound None consulted) as [c|] eqn:E; cbn in Ho; [|tauto].
     pose proof (dns64_cap_within c now (piece_ttl q now)). lia. }
+  pose proof (dns64_cap_le (dns64_bound None consulted) now (piece_ttl q now)) as Hle.
   split; [exact H1|]. split.
-  - intros e Hin Hl. pose proof (H1 (PHit e) (bound_entry e) Hin eq_refl) as H.
-    rewrite bound_entry_eq in H. lia.
-  - exists q. split; [exact Hq|]. split; [apply dns64_cap_le|].
-    intros ->. reflexivity.
+  { intros e Hin Hl. pose proof (H1 (PHit e) (bound_entry e) Hin eq_refl) as H.
+    rewrite bound_entry_eq in H. lia. }
+  split; [exact Hle|]. split; [apply dns64_cap_nonneg|]. split.
+  - destruct q as [t l|e]; cbn [piece_ttl] in *; [exact Hle|].
+    intros Hl. assert (Hs : serve e now = Some (shown_ttl e now)).
+    { unfold serve. rewrite remaining_eq. destruct (Z.leb_spec (entry_end e - now) 0); [lia|reflexivity]. }
+    pose proof (shown_ttl_le_remaining_l e now _ Hs) as H. rewrite remaining_eq in H.
+    pose proof second_pos as Hp.
+    pose proof (Z.mul_le_mono_nonneg_r _ _ second (Z.lt_le_incl _ _ Hp) Hle) as Hm. lia.
+  - intros ->. reflexivity.
 Qed.
 
-Example dns64_basis_capped_example :
-  dns64_basis_reply_capped [PHit basis_a] [PHit basis_gate; PHit basis_a] (4 * second) = [1].
-Proof. vm_compute. reflexivity. Qed.
+(* What the cap prevents (the former finding dns64-abasis-gate, the code before 1a0e74f):
+   AAAA NODATA admitted at 0 for 5 s, the A NODATA (SOA 3600 s) admitted at 2 s; asked at 4 s:
+   uncapped, the reply relays the SOA with TTL 3598 while the gate has 1 s left.  The tree's
+   bound (5 s) does carry the gate's end; the repaired reply says 1. *)
+Definition basis_gate : entry := mk_entry 1 0 (5 * second) None false.
+Definition basis_a : entry := mk_entry 2 (2 * second) (3600 * second) None false.
+Example dns64_basis_uncapped_outlives_gate :
+  let now := 4 * second in
+  now < entry_end basis_gate /\ now < entry_end basis_a
+  /\ dns64_basis_reply_uncapped [PHit basis_a] now = [3598]
+  /\ 3598 * second > remaining basis_gate now
+  /\ dns64_bound None [PHit basis_gate; PHit basis_a] = Some (entry_end basis_gate)
+  /\ dns64_basis_reply [PHit basis_a] [PHit basis_gate; PHit basis_a] now = [1].
+Proof. vm_compute. repeat split; reflexivity. Qed.
+
+(* non-vacuity: a fresh A answer under a lease, a cached alias piece, a gate with 1 s left and
+   a bound that is already over *)
+Example dns64_basis_example :
+  dns64_basis_reply [PHit basis_a; PFresh 30 (Some (9 * second))]
+                    [PHit basis_gate; PHit basis_a; PFresh 30 (Some (9 * second))] (3 * second) = [2; 2]
+  /\ dns64_basis_reply [PHit basis_a; PFresh 30 (Some (9 * second))]
+                       [PFresh 0 None; PHit basis_a; PFresh 30 (Some (9 * second))] (3 * second) = [6; 6]
+  /\ dns64_basis_reply [PHit basis_a; PFresh 30 None] [PFresh 0 None; PHit basis_a; PFresh 30 None] (3 * second) = [3599; 30]
+  /\ dns64_basis_reply [PFresh 30 (Some (2 * second))] [PFresh 0 None; PFresh 30 (Some (2 * second))] (3 * second) = [0].
+Proof. vm_compute. repeat split; reflexivity. Qed.
 
 Example dns64_relayed_example :
   dns64_ptr_reply [PHit basis_a; PFresh 30 (Some (9 * second))] (4 * second) = [600; 3598; 30]
